@@ -50,17 +50,16 @@ func (n *EvalFunctionNode) Type(scope ReadOnlyScope) (ast.ValueType, error) {
 	signature := f.Signature()
 
 	domain := Domain{}
+	if gotLen, expLen := len(n.argsEvaluators), len(domain); gotLen > expLen {
+		err := ErrWrongFuncSignature{Name: n.funcName, DomainProvided: domain, Func: f}
+		return ast.InvalidType, errors.Wrapf(err, "too many arguments provided")
+	}
 	for i, argEvaluator := range n.argsEvaluators {
 		t, err := argEvaluator.Type(scope)
 		if err != nil {
 			return ast.InvalidType, fmt.Errorf("Failed to handle %v argument: %v", i+1, err)
 		}
 		domain[i] = t
-	}
-
-	if gotLen, expLen := len(n.argsEvaluators), len(domain); gotLen > expLen {
-		err := ErrWrongFuncSignature{Name: n.funcName, DomainProvided: domain, Func: f}
-		return ast.InvalidType, errors.Wrapf(err, "too many arguments provided")
 	}
 
 	retType, ok := signature[domain]
